@@ -4,10 +4,9 @@ From V Require Import Common.Bytes Prompt.Model.
 Import ListNotations.
 Open Scope N_scope.
 
-Definition style_render (style : N) : list msg -> str :=
-  if style =? 0 then render_chatml else render_legacy.
+(** tokenizer of the harness: 0 = white-space fields, k > 0 = one token per started group of k bytes *)
 Definition tok_count (tok : N) : str -> N :=
-  if tok =? 0 then count_fields else count_len4.
+  if tok =? 0 then count_fields else count_len tok.
 
 Fixpoint eqb_imgs (a b : list (N * N)) : bool :=
   match a, b with
@@ -23,17 +22,33 @@ Fixpoint eqb_Ns (a b : list N) : bool :=
   | _, _ => false
   end.
 
-Definition model_chat (style tok : N) (mllama projcount : bool) (numctx : Z) (msgs : list msg) :=
-  chat_prompt (style_render style) (tok_count tok) mllama projcount numctx msgs.
-
-(** the observation of chatPrompt: error flag, prompt, image list (ID, data) *)
-Definition chk_chat (style tok : N) (mllama projcount : bool) (numctx : Z) (msgs : list msg)
-           (is_err : bool) (prompt : str) (imgs : list (N * N)) : bool :=
-  match model_chat style tok mllama projcount numctx msgs with
-  | ErrTooManyImages => is_err
-  | Ok (p, im) => negb is_err && eqb_str p prompt && eqb_imgs im imgs
+Fixpoint eqb_strs (a b : list str) : bool :=
+  match a, b with
+  | [], [] => true
+  | x :: a', y :: b' => eqb_str x y && eqb_strs a' b'
+  | _, _ => false
   end.
 
-(** the token counts of the candidate prompts (real Template.Execute + tokenizer, one per suffix start) *)
-Definition chk_cand (style tok : N) (msgs : list msg) (counts : list N) : bool :=
-  eqb_Ns (map (fun k => tok_count tok (style_render style (candidate msgs k))) (seq 0 (length msgs))) counts.
+Definition model_scan (st : style) (tok : N) (mllama projcount : bool) (numctx : Z) (msgs : list msg) :=
+  scan_all (render_style st) (tok_count tok) mllama projcount numctx msgs.
+
+Definition model_chat (st : style) (tok : N) (mllama projcount : bool) (numctx : Z) (msgs : list msg) :=
+  chat_prompt (render_style st) (tok_count tok) mllama projcount numctx msgs.
+
+(** the observation of chatPrompt: outcome (0 = ok, 1 = errTooManyImages, 2 = panic), prompt, image list (ID, data),
+    the contents of the caller's messages after the call *)
+Definition chk_chat (st : style) (tok : N) (mllama projcount : bool) (numctx : Z) (msgs : list msg)
+           (outcome : N) (prompt : str) (imgs : list (N * N)) (after : list str) : bool :=
+  match model_scan st tok mllama projcount numctx msgs with
+  | ErrTooManyImages => outcome =? 1
+  | PanicEmpty => outcome =? 2
+  | Ok n => (outcome =? 0)
+            && eqb_str (render_style st (final_list mllama msgs n)) prompt
+            && eqb_imgs (final_images msgs n) imgs
+            && eqb_strs (map content (after_call mllama msgs n)) after
+  end.
+
+(** the candidate prompts (real Template.Execute, one per suffix start) and their token counts (harness tokenizer) *)
+Definition chk_cand (st : style) (tok : N) (msgs : list msg) (prompts : list str) (counts : list N) : bool :=
+  eqb_strs (map (fun k => render_style st (candidate msgs k)) (seq 0 (length msgs))) prompts
+  && eqb_Ns (map (fun k => tok_count tok (render_style st (candidate msgs k))) (seq 0 (length msgs))) counts.
